@@ -5,6 +5,9 @@
 import AnthemModel.Syntax.Wire
 import AnthemModel.Semantics.Window
 import AnthemModel.Model.Gamma
+import AnthemModel.Semantics.Asp
+import AnthemModel.Model.TauStar
+import AnthemModel.Model.Problem
 open Anthem Anthem.Window
 
 def domToSexp : Dom → Sexp
@@ -111,3 +114,231 @@ def cexSubst (F : Formula) (v : Var) (t : GTerm) (G : Formula) (seed tries : Nat
           (some (witness T none ρ "impl F[v:=t] at rho  vs  F at rho[v := value of t]" a b), r')
         else (none, r')
       | _, _ => (none, r')
+
+/-! ## bounded reference semantics of mini-gringo (search only) -/
+
+instance (r : Anthem.Asp.Rel) (a b : Dom) : Decidable (r.holds a b) := by
+  cases r <;> simp only [Anthem.Asp.Rel.holds] <;> infer_instance
+
+open Anthem.Asp in
+/-- the values of a term under a finite substitution; `none` = an interval too long to enumerate -/
+def valsB (σ : List (String × Dom)) : Term → Option (List Dom)
+  | .pre p => some [p.toDom]
+  | .var x => some [match σ.find? (·.1 = x) with | some p => p.2 | none => .num 0]
+  | .neg t => do
+    let vs ← valsB σ t
+    some (vs.filterMap fun d => match d with | .num n => some (.num (0 - n)) | _ => none)
+  | .bin op l r => do
+    let as ← valsB σ l
+    let bs ← valsB σ r
+    let pairs := as.flatMap fun a => bs.filterMap fun b =>
+      match a, b with | .num x, .num y => some (x, y) | _, _ => none
+    match op with
+    | .add => some (pairs.map fun (x, y) => .num (x + y))
+    | .sub => some (pairs.map fun (x, y) => .num (x - y))
+    | .mul => some (pairs.map fun (x, y) => .num (x * y))
+    | .div => some (pairs.filterMap fun (x, y) => if 0 < y then some (.num (x / y)) else none)
+    | .mod => some (pairs.filterMap fun (x, y) => if 0 < y then some (.num (x % y)) else none)
+    | .interval =>
+      if pairs.any (fun (x, y) => y - x > 40) then none
+      else some (pairs.flatMap fun (x, y) =>
+        (List.range (y - x + 1).toNat).map fun (k : Nat) => .num (x + (k : Int)))
+
+open Anthem.Asp in
+def tuplesB (σ : List (String × Dom)) : List Term → Option (List (List Dom))
+  | [] => some [[]]
+  | t :: ts => do
+    let vs ← valsB σ t
+    let rest ← tuplesB σ ts
+    some (vs.flatMap fun v => rest.map fun r => v :: r)
+
+open Anthem.Asp in
+def bodyAtomB (H T : FinInterp) (here : Bool) (σ : List (String × Dom)) : BodyAtom → Option Bool
+  | .lit ⟨s, a⟩ => do
+    let tups ← tuplesB σ a.args
+    match s with
+    | .pos => some (tups.any fun ds => (if here then H else T).holds a.pred ds)
+    | .neg => some (tups.any fun ds => !T.holds a.pred ds)
+    | .negneg => some (tups.any fun ds => T.holds a.pred ds)
+  | .cmp rel l r => do
+    let as ← valsB σ l
+    let bs ← valsB σ r
+    some (as.any fun a => bs.any fun b => decide (rel.holds a b))
+
+open Anthem.Asp in
+def headB (H T : FinInterp) (here : Bool) (σ : List (String × Dom)) : Head → Option Bool
+  | .falsity => some false
+  | .basic a => do
+    let tups ← tuplesB σ a.args
+    some (tups.all fun ds => (if here then H else T).holds a.pred ds)
+  | .choice a => do
+    let tups ← tuplesB σ a.args
+    some (tups.all fun ds => (if here then H else T).holds a.pred ds || !T.holds a.pred ds)
+
+def substsB (dom : List Dom) : List String → List (List (String × Dom))
+  | [] => [[]]
+  | x :: xs => (substsB dom xs).flatMap fun σ => dom.map fun d => (x, d) :: σ
+
+open Anthem.Asp in
+/-- HT satisfaction of a rule at a world, substitutions ranging over the window -/
+def ruleB (H T : FinInterp) (here : Bool) (r : Rule) : Option Bool :=
+  (substsB (T.window .general) r.vars).foldl (fun acc σ => do
+    let ok ← acc
+    let inst := fun (w : Bool) => do
+      let bs ← r.body.mapM (bodyAtomB H T w σ)
+      if bs.all id then headB H T w σ r.head else some true
+    let a ← inst here
+    let b ← inst false
+    some (ok && a && b)) (some true)
+
+open Anthem.Asp in
+def progB (H T : FinInterp) (here : Bool) (p : Program) : Option Bool :=
+  p.foldl (fun acc r => do let a ← acc; let b ← ruleB H T here r; some (a && b)) (some true)
+
+/-! short-circuit evaluation (integer terms are exact, so nothing is ever tainted) -/
+
+def evalIF (I : FinInterp) (ρ : AsgL) : ITerm → Int
+  | .num n => n
+  | .fc c => (I.fc c .integer).toInt
+  | .var x => (lookup ρ ⟨x, .integer⟩).toInt
+  | .neg t => - evalIF I ρ t
+  | .bin op l r =>
+    let a := evalIF I ρ l
+    let b := evalIF I ρ r
+    match op with | .add => a + b | .sub => a - b | .mul => a * b
+
+def evalGF (I : FinInterp) (ρ : AsgL) : GTerm → Dom
+  | .inf => .inf
+  | .sup => .sup
+  | .fc c => I.fc c .general
+  | .var x => lookup ρ ⟨x, .general⟩
+  | .int t => .num (evalIF I ρ t)
+  | .symb t => .sym (evalS I ρ t)
+
+def evalChainF (I : FinInterp) (ρ : AsgL) : Dom → List Guard → Bool
+  | _, [] => true
+  | d, g :: gs =>
+    let e := evalGF I ρ g.term
+    decide (g.rel.holds d e) && evalChainF I ρ e gs
+
+def evalAtomicF (I : FinInterp) (ρ : AsgL) : AtomicF → Bool
+  | .tru => true
+  | .fls => false
+  | .atom a => I.holds a.pred (a.args.map (evalGF I ρ))
+  | .cmp t gs => evalChainF I ρ (evalGF I ρ t) gs
+
+def bindAllF (I : FinInterp) : List Var → (AsgL → Bool) → AsgL → Bool
+  | [], P, ρ => P ρ
+  | v :: vs, P, ρ => (I.window v.sort).all fun d => bindAllF I vs P ((v, d) :: ρ)
+
+def bindExF (I : FinInterp) : List Var → (AsgL → Bool) → AsgL → Bool
+  | [], P, ρ => P ρ
+  | v :: vs, P, ρ => (I.window v.sort).any fun d => bindExF I vs P ((v, d) :: ρ)
+
+def evalHtF (H T : FinInterp) : Formula → Bool → AsgL → Bool
+  | .atomic a, here, ρ => evalAtomicF (if here then H else T) ρ a
+  | .not f, _, ρ => !evalHtF H T f false ρ
+  | .bin .and l r, here, ρ => evalHtF H T l here ρ && evalHtF H T r here ρ
+  | .bin .or l r, here, ρ => evalHtF H T l here ρ || evalHtF H T r here ρ
+  | .bin .imp l r, here, ρ =>
+    (!evalHtF H T l here ρ || evalHtF H T r here ρ) && (!evalHtF H T l false ρ || evalHtF H T r false ρ)
+  | .bin .rimp l r, here, ρ =>
+    (!evalHtF H T r here ρ || evalHtF H T l here ρ) && (!evalHtF H T r false ρ || evalHtF H T l false ρ)
+  | .bin .iff l r, here, ρ =>
+    ((!evalHtF H T l here ρ || evalHtF H T r here ρ) && (!evalHtF H T l false ρ || evalHtF H T r false ρ)) &&
+    ((!evalHtF H T r here ρ || evalHtF H T l here ρ) && (!evalHtF H T r false ρ || evalHtF H T l false ρ))
+  | .quant .all vs f, here, ρ => bindAllF T vs (evalHtF H T f here) ρ
+  | .quant .ex vs f, here, ρ => bindExF T vs (evalHtF H T f here) ρ
+
+def theoryB (H T : FinInterp) (here : Bool) (Γ : Theory) : Option Bool :=
+  some (Γ.all fun F => evalHtF H T F here [])
+
+/-- evaluation cost with the actual window sizes -/
+def evalCostW (I : FinInterp) : Formula → Nat
+  | .atomic _ => 1
+  | .not f => evalCostW I f
+  | .bin _ l r => evalCostW I l + evalCostW I r
+  | .quant _ vs f => (vs.foldl (fun acc v => acc * (I.window v.sort).length) 1) * evalCostW I f
+
+/-- a small window for whole translated programs: −1..3 and the numerals mentioned, one or two symbols -/
+def smallInterp (fs : List Formula) : FinInterp :=
+  let nums := (fs.flatMap formulaNums).filter fun n => -4 ≤ n ∧ n ≤ 6
+  let ints := nums.foldl ins [-1, 0, 1, 2, 3]
+  let syms := ((fs.flatMap Formula.symbols).foldl ins ["a"]).take 2
+  { ints := ints.mergeSort (· ≤ ·), syms := syms, preds := [], fcs := [] }
+
+def randomWorldIn (base : FinInterp) (fs : List Formula) (r : Rng) : FinInterp × FinInterp × Rng :=
+  let ps := fs.foldl (fun acc f => ext acc f.preds) []
+  let cs := fs.foldl (fun acc f => ext acc f.fcs) []
+  let (text, r1) := randomExtents base ps r
+  let (hext, r2) := text.foldl (fun (acc : List (String × Nat × List (List Dom)) × Rng) e =>
+      let (dens, ra) := acc.2.below 9
+      let (sub, rb) := randomSubset e.2.2 dens ra
+      (acc.1 ++ [(e.1, e.2.1, sub)], rb)) ([], r1)
+  let (fcs, r3) := randomFcs base cs r2
+  ({ base with preds := hext, fcs := fcs }, { base with preds := text, fcs := fcs }, r3)
+
+open Anthem.Asp in
+/-- a translation `Γ` (by the implementation) of program `P`: an HT interpretation that satisfies one
+    but not the other (window search, confirmed on a wider window) -/
+def cexProgram (P : Program) (Γ ref : Theory) (seed tries : Nat) : Sexp :=
+  let base := smallInterp (Γ ++ ref)
+  if Γ.any (fun F => evalCostW base F > 2000000) || P.any (fun r => r.vars.length > 4) then .list [.atom "skipped"] else
+  searchLoop tries ⟨seed.toUInt64⟩ fun r =>
+    let (H, T, r') := randomWorldIn base (Γ ++ ref) r
+    let check := fun (here : Bool) =>
+      match theoryB H T here Γ, progB H T here P with
+      | some a, some b =>
+        if a != b && theoryB (H.widen 2) (T.widen 2) here Γ == some a &&
+            progB (H.widen 2) (T.widen 2) here P == some b then
+          some (witness T (some H.preds) []
+            ("implementation's theory vs reference semantics of the program, world " ++ (if here then "here" else "there")) a b)
+        else none
+      | _, _ => none
+    match check true with
+    | some w => (some w, r')
+    | none => (check false, r')
+
+/-! ## strong equivalence: emitted problems vs the reference semantics of the two programs -/
+
+def mergedInterp (H T : FinInterp) : FinInterp :=
+  { T with preds :=
+      H.preds.map (fun (e : String × Nat × List (List Dom)) => ("h" ++ e.1, e.2.1, e.2.2)) ++
+      T.preds.map (fun (e : String × Nat × List (List Dom)) => ("t" ++ e.1, e.2.1, e.2.2)) }
+
+def refutedB (J : FinInterp) (p : Problem) : Bool :=
+  (p.formulas.all fun a => a.role != .axiom || evalHtF J J a.formula false []) &&
+  (p.formulas.any fun a => a.role == .conjecture && !evalHtF J J a.formula false [])
+
+def subOnB (H T : FinInterp) : Bool :=
+  H.preds.all fun e => e.2.2.all fun tup => T.holds e.1 tup
+
+open Anthem.Asp in
+def cexStrong (left right : Program) (fwd bwd : Bool) (ps : List Problem) (seed tries : Nat) : Sexp :=
+  let fs := ps.flatMap fun p => p.formulas.map (·.formula)
+  let ref := tauStar left ++ tauStar right
+  let base := smallInterp ref
+  if fs.any (fun F => evalCostW base F > 2000000) || (left ++ right).any (fun r => r.vars.length > 4) then
+    .list [.atom "skipped"] else
+  searchLoop tries ⟨seed.toUInt64⟩ fun r =>
+    let (H0, T, r1) := randomWorldIn base ref r
+    -- one time in four an `H` that is not below `T`
+    let (k, r2) := r1.below 4
+    let (H, r') := if k == 0 then
+        let (H', _, r3) := randomWorldIn base ref r2
+        ({ H0 with preds := H'.preds }, r3)
+      else (H0, r2)
+    let eval := fun (H T : FinInterp) =>
+      let J := mergedInterp H T
+      let refuted := ps.any (refutedB J)
+      match progB H T true left, progB H T true right with
+      | some l, some rr =>
+        some (refuted, subOnB H T && ((fwd && l && !rr) || (bwd && rr && !l)))
+      | _, _ => none
+    match eval H T, eval (H.widen 2) (T.widen 2) with
+    | some (a, b), some (a', b') =>
+      if a != b && a == a' && b == b' then
+        (some (witness T (some H.preds) []
+          "some emitted problem refuted by the merged interpretation  vs  H subset T and (H,T) separates the programs in a requested direction" a b), r')
+      else (none, r')
+    | _, _ => (none, r')
